@@ -9,7 +9,7 @@ V(what) == [l |-> l, prop |-> "C08", what |-> what, case |-> Ev.case, layout |->
 
 VCViol(e) ==
   LET env == [level |-> e.place.level, self |-> e.place.self,
-              edited |-> IF e.edited # "" THEN {e.edited} ELSE IF e.place.level >= 1 THEN {"b.v", "self.v"} ELSE {}]
+              edited |-> IF e.edited # "" THEN {e.edited} ELSE IF e.place.level = 1 THEN {"b.v", "self.v"} ELSE IF e.place.level = 2 THEN {"c.two.v", "self.v"} ELSE {}]
       cs == e.cands
       refs == {i \in DOMAIN cs : cs[i][2] = "reference"}
       fns == {i \in DOMAIN cs : cs[i][2] = "function"}
@@ -20,7 +20,7 @@ VCViol(e) ==
   IF e.status = "panic" THEN {V("value completion panicked")} ELSE
   (IF badRef # {} THEN LET i == CHOOSE i \in badRef : TRUE IN
      {V(IF cs[i][1] \in env.edited THEN "the attribute being edited is offered as a reference candidate"
-        ELSE IF cs[i][1] \notin Visible(env) THEN (IF cs[i][1] \in SelfDecl THEN "a block-local name is offered where it is not visible" ELSE "reference candidate is not the address of a collected declaration")
+        ELSE IF cs[i][1] \notin Visible(env) THEN (IF IsPrefixStr("self.", cs[i][1]) THEN "a block-local name is offered where it is not visible" ELSE "reference candidate is not the address of a collected declaration")
         ELSE IF ~IsPrefixStr(e.typed, cs[i][1]) THEN "reference candidate does not start with the typed text"
         ELSE "reference candidate neither fits the expected type nor contains a nested declaration that does")} ELSE {})
   \cup (IF badFn # {} THEN LET i == CHOOSE i \in badFn : TRUE IN
